@@ -282,7 +282,7 @@ def run(chk):
     pv = [(0.5, 0.7, 0.0, None), (2.0, 3.0, 0.3, 2.0)] if tier == "quick" else [(v, l, n, rs) for v in (0.5, 2.0) for l in (0.7, 3.0) for n in (0.0, 0.3) for rs in (None, 2.0)]
     for cls in cf.SHIPPED:
         for dim in (1, 2, 3):
-            for opts in cf.opt_grid(cls, dim, tier):
+            for opts in cf.opt_grid(cls, dim, tier) + cf.near_integer_order_grid(cls, tier):
                 for var, ls, nug, rs in pv:
                     cases.append({"cls": cls, "dim": dim, "opts": opts, "var": var, "len_scale": ls, "nugget": nug, "rescale": rs, "generic_h": gh})
                 for ls, rs in [(0.7, None), (3.0, 2.0)]:
